@@ -33,6 +33,23 @@ fn views<T: Elem + PartialEq + core::fmt::Debug>(a: usize, n: usize, i: usize, v
             let back: &mut [T] = c.into();
             if back.as_ptr() != p || back.len() != n { mon.fail(format!("case{} CSliceMut into() changed address/length", k)); }
         }
+        {
+            let s3: &mut [T] = &mut mem[a..a + n];
+            let p3 = s3.as_ptr();
+            let mut c3 = CSliceMut::from(s3);
+            let sm = c3.as_slice_mut();
+            if sm.as_ptr() != p3 || sm.len() != n { mon.fail(format!("case{} as_slice_mut changed address/length", k)); }
+        }
+        let s2: &mut [T] = &mut mem[a..a + n];
+        let p2 = s2.as_ptr();
+        let mut c2 = CSliceMut::from(s2);
+        if c2.is_empty() != (n == 0) || c2.as_mut_ptr() as *const T != p2 { mon.fail(format!("case{} is_empty/as_mut_ptr wrong", k)); }
+        {
+            let reborrow: CSliceMut<T> = CSliceMut::from(&mut c2);
+            if reborrow.as_ptr() != p2 || reborrow.len() != n { mon.fail(format!("case{} From<&mut CSliceMut> changed address/length", k)); }
+        }
+        let shared: &[T] = c2.into();
+        if shared.as_ptr() != p2 || shared.len() != n { mon.fail(format!("case{} From<CSliceMut> for &[T] changed address/length", k)); }
     }
     let out: Vec<i64> = mem.iter().map(|e| e.val()).collect();
     let _ = take_drops();
@@ -57,14 +74,33 @@ pub fn run(params: &[i64], ops: &Rows, mon: &mut Mon) -> Rows {
                 let cm = CSliceMut::from(&mut bs2[..]);
                 let r2 = <&str>::try_from(cm);
                 if r2.is_ok() != oracle { mon.fail(format!("case{} CSliceMut try_from differs", k)); }
-                if let Ok(s) = r2 { if s.as_ptr() != p2 { mon.fail(format!("case{} str view moved (mut)", k)); } }
+                if let Ok(s) = &r2 { if s.as_ptr() != p2 { mon.fail(format!("case{} str view moved (mut)", k)); } }
                 if oracle {
                     let s = std::str::from_utf8(&bs).unwrap();
                     let c2 = CSliceRef::from(s);
                     let s2 = unsafe { c2.into_str() };
                     if s2.as_ptr() != s.as_ptr() || s2 != s { mon.fail(format!("case{} from_str/into_str changed the string", k)); }
                 }
-                vec![r.is_ok() as i64]
+                // &mut str paths
+                let mut bs3 = bs.clone();
+                let p3 = bs3.as_ptr();
+                let r3 = <&mut str>::try_from(CSliceMut::from(&mut bs3[..]));
+                if r3.is_ok() != oracle { mon.fail(format!("case{} TryFrom<CSliceMut> for &mut str says {} but core::str::from_utf8 says {}", k, r3.is_ok(), oracle)); }
+                let r3ok = r3.is_ok();
+                if let Ok(s) = r3 { if s.as_ptr() != p3 || s.len() != bs.len() { mon.fail(format!("case{} &mut str view moved", k)); } }
+                if oracle {
+                    let mut owned = String::from_utf8(bs.clone()).unwrap();
+                    let (p4, l4) = (owned.as_ptr(), owned.len());
+                    let cm = CSliceMut::from(owned.as_mut_str());
+                    if cm.as_ptr() != p4 || cm.len() != l4 || cm.is_empty() != (l4 == 0) { mon.fail(format!("case{} From<&mut str> changed address/length", k)); }
+                    let ms = unsafe { cm.into_mut_str() };
+                    if ms.as_ptr() != p4 || ms.len() != l4 { mon.fail(format!("case{} into_mut_str changed address/length", k)); }
+                    let cm2 = CSliceMut::from(owned.as_mut_str());
+                    let s5 = unsafe { cm2.into_str() };
+                    if s5.as_ptr() != p4 || s5.len() != l4 { mon.fail(format!("case{} CSliceMut::into_str changed address/length", k)); }
+                    if format!("{}", CSliceRef::from(&bs[..])) != String::from_utf8_lossy(&bs) { mon.fail(format!("case{} Display differs", k)); }
+                }
+                vec![r.is_ok() as i64, r2.is_ok() as i64, r3ok as i64]
             }
             1 => {
                 let o: Option<Tok> = if op[1] == 0 { None } else { Some(Tok::mk(op[2])) };
@@ -74,7 +110,12 @@ pub fn run(params: &[i64], ops: &Rows, mon: &mut Mon) -> Rows {
                 if tag != r[0] { mon.fail(format!("case{} COption tag {} for variant {}", k, tag, r[0])); }
                 let d = take_drops();
                 if !d.is_empty() { mon.fail(format!("case{} conversion dropped a payload", k)); }
-                let back: Option<Tok> = c.into();
+                let mut c = c;
+                if c.is_some() != (op[1] != 0) || c.as_ref().map(|t| t.val()) != (if op[1] != 0 { Some(op[2]) } else { None })
+                    || c.as_mut().map(|t| t.val()) != (if op[1] != 0 { Some(op[2]) } else { None }) { mon.fail(format!("case{} COption accessors disagree", k)); }
+                let c = if k % 2 == 0 { let t = c.take(); if c.is_some() { mon.fail(format!("case{} take left a value", k)); } COption::from(t) } else { c };
+                if !take_drops().is_empty() { mon.fail(format!("case{} take dropped a payload", k)); }
+                let back: Option<Tok> = if k % 3 == 0 && op[1] != 0 { Some(c.unwrap()) } else { c.into() };
                 r.extend(match &back { None => vec![0, 0], Some(t) => vec![1, t.val()] });
                 if !take_drops().is_empty() { mon.fail(format!("case{} conversion back dropped a payload", k)); }
                 drop(back);
@@ -88,6 +129,9 @@ pub fn run(params: &[i64], ops: &Rows, mon: &mut Mon) -> Rows {
                 let mut r = match &c { CResult::Ok(t) => vec![0, t.val()], CResult::Err(t) => vec![1, t.val()] };
                 if tag != r[0] { mon.fail(format!("case{} CResult tag {} for variant {}", k, tag, r[0])); }
                 if !take_drops().is_empty() { mon.fail(format!("case{} conversion dropped a payload", k)); }
+                let mut c = c;
+                if c.is_ok() != (op[1] == 0) || c.is_err() != (op[1] != 0) || c.as_ref().map(|t| t.val()).map_err(|t| t.val()) != (if op[1] == 0 { Ok(op[2]) } else { Err(op[2]) })
+                    || c.as_mut().map(|t| t.val()).map_err(|t| t.val()) != (if op[1] == 0 { Ok(op[2]) } else { Err(op[2]) }) { mon.fail(format!("case{} CResult accessors disagree", k)); }
                 let back: Result<Tok, Tok> = c.into();
                 r.extend(match &back { Ok(t) => vec![0, t.val()], Err(t) => vec![1, t.val()] });
                 if !take_drops().is_empty() { mon.fail(format!("case{} conversion back dropped a payload", k)); }
